@@ -3,3 +3,22 @@
 // String's Hash/Eq are deterministic and agree (needed for HashMap<String, _> / HashSet<String> models).
 pub broadcast axiom fn axiom_string_obeys_key_model()
     ensures #[trigger] vstd::std_specs::hash::obeys_key_model::<String>();
+
+// decimal rendering of an unsigned integer (what `format!("{}", n)` prints); only injectivity is used
+pub uninterp spec fn decimal(n: nat) -> Seq<char>;
+pub broadcast axiom fn axiom_decimal_injective(a: nat, b: nat)
+    ensures #[trigger] decimal(a) == #[trigger] decimal(b) ==> a == b;
+
+// Option::map_or / map_or_else (definitions)
+pub assume_specification<T, U, F: FnOnce(T) -> U>[ Option::<T>::map_or ](o: Option<T>, d: U, f: F) -> (r: U)
+    requires o is Some ==> f.requires((o->0,)),
+    ensures o is None ==> r == d, o is Some ==> f.ensures((o->0,), r);
+pub assume_specification<T, U, D: FnOnce() -> U, F: FnOnce(T) -> U>[ Option::<T>::map_or_else ](o: Option<T>, d: D, f: F) -> (r: U)
+    requires o is None ==> d.requires(()), o is Some ==> f.requires((o->0,)),
+    ensures o is None ==> d.ensures((), r), o is Some ==> f.ensures((o->0,), r);
+
+// <[T]>::contains / to_vec for element types whose PartialEq / Clone are the derived structural ones
+pub assume_specification<T: PartialEq>[ <[T]>::contains ](s: &[T], x: &T) -> (r: bool)
+    ensures r == s@.contains(*x);
+pub assume_specification<T: Clone>[ <[T]>::to_vec ](s: &[T]) -> (r: Vec<T>)
+    ensures r@ == s@;
